@@ -2643,9 +2643,9 @@ where
 
             w.write_count(
                 precision
+                    .count()
                     .checked_sub::<0b1111>(1)
-                    .ok_or(Error::InvalidQlpPrecision)?
-                    .count(),
+                    .ok_or(Error::InvalidQlpPrecision)?,
             )?;
 
             w.write::<5, i32>(i32::try_from(*shift).unwrap())?;
